@@ -20,6 +20,9 @@ FIRST = {
     "S15f-copy-pending-as-available": ("missed (models always loaded in zero time, so no invocation saw a pending model)", "C15 models have a drawn load time (0/2/5/9 us); class invocation_while_a_model_is_loading"),
     "S09f-policy-rng-rewound-unseeded": ("missed (every release policy object was asked once)", "C09 two_fresh_processes draws --replication_factor 1..3 (replicas share the policy object); release_policies_two_processes asks each policy 1-3 times"),
     "S13f-rollback-keeps-records": ("missed by C13 (caught by C04 resources_machine: a refused joint allocation leaves records behind; the greedy policies only inherit it through copy(worker_pools))", None),
+    "S12g-batchtask-deadline-max": ("missed (batching mode was switched off in every C12 case)", "C12 gained cplex_planner_batching: TetriSched-CPLEX with --scheduler_enable_batching, members of one batch with different deadlines, half of the cases in the contended-batch shape"),
+    "S14g-ilp-drops-retract-flag": ("missed (no instance held an earlier plan; retract_schedules never set)", "C14 gained ilp_goodput_retraction (and a quarter of ilp_goodput): ILP with retract_schedules and SCHEDULED tasks that are offered again; the brute force ranges over them as over any offered task"),
+    "S01g-resource-eq-ignores-name-for-specific-ids": ("missed by C01 (caught by C04 pools_machine: ids that coincide across types only exist through the API, where C04 builds them)", None),
     "S17b-stale-topological-order-cache": ("missed", "C17 gained graph_history: all clauses re-asked after every add_node/add_child/remove on one Graph object"),
     "S01b-reload-profile-skips-booking": ("missed", None),
     "S11e-ilp-skips-precedence-for-scheduled-children": ("missed (state never built)", "scheduler-input states for C11 may contain children that an earlier invocation planned ahead (SCHEDULED after a RUNNING/SCHEDULED parent)"),
